@@ -723,6 +723,16 @@ pub fn hand(b: &mut Builder) {
     );
     b.program("wrap_try", w.clone());
     b.program("vec_wrap_try", Desc::Vec(bx(w.clone())));
+    // the same shape with every container attribute in one `#[deserr(..)]` (names ending in `One`)
+    let id1 = b.fid();
+    let v1 = b.fid();
+    let src1 = Desc::Vec(bx(b.p()));
+    let w_one = b.add_type(
+        "HWrapTryValidatedOne",
+        TypeKind::Wrapper { src: src1, fn_id: id1, fallible: true, by_ref: false, validate: Validate::User(v1) },
+    );
+    b.program("wrap_try_one_attribute", w_one.clone());
+    b.program("vec_wrap_try_one_attribute", Desc::Vec(bx(w_one)));
     let id = b.fid();
     let w2 = b.add_type(
         "HWrapTryRef",
